@@ -70,6 +70,9 @@ Section Graph.
 End Graph.
 
 
+(** anchored at [idx]: a match starts where it was asked to *)
+Definition anchored (idx : N) (m : mr) : Prop := has_match m = true -> mr_start m = idx.
+
 (* ------------------------------------------------------------------ the static side condition *)
 Section Static.
   Variable g : grammar.
